@@ -255,7 +255,10 @@ def snapkeys_h(g, a, b):
                                                     g['SKey'][q]), [g['SKey'][q]]))]
     i = z3.Int('i?sk')
     return [z3.Implies(r != 0, FA([i, q], z3.Implies(z3.And(inb(i, n), S[i] <= q, q <= E[i]), g['SKey'][q]),
-                                  [z3.MultiPattern(S[i], g['SKey'][q])], 'snapkeys'))]
+                                  [z3.MultiPattern(S[i], g['SKey'][q])], 'snapkeys')),
+            # ground instances (first start, last end) spare a trigger hunt
+            z3.Implies(z3.And(r != 0, n >= 1, S[0] <= E[0]), g['SKey'][S[0]]),
+            z3.Implies(z3.And(r != 0, n >= 1, S[n - 1] <= E[n - 1]), g['SKey'][E[n - 1]])]
 
 
 def snapkeys_goals(g, a, b, q):
